@@ -185,6 +185,7 @@ func c10run(env sched.Env) *sched.Report {
 			break
 		}
 		rep.Execs++
+		sched.Progress(nil)
 		canon := resp.Encode(v)
 		distinct[string(canon[:min(len(canon), 48)])+strconv.Itoa(len(canon))] = true
 		got, err := c10encode(v)
@@ -194,6 +195,7 @@ func c10run(env sched.Env) *sched.Report {
 		}
 		for _, bs := range bufs {
 			rep.Execs++
+			sched.Progress(nil)
 			sched.Progress(c10case{Kind: "stream", Stream: canon, Buf: bs, N: 1})
 			if s, d := c10decodeStream(append(append([]byte{}, canon...), resp.Encode(sentinel)...), nil, bs, []resp.Value{v, sentinel}); s != "" {
 				fail(s+" / single message / "+string(v.Kind), fmt.Sprintf("buf %d value %s: %s", bs, v, d), c10case{Kind: "stream", Stream: canon, Buf: bs, N: 1})
@@ -236,6 +238,7 @@ func c10run(env sched.Env) *sched.Report {
 		streams++
 		run := func(cuts []int, bs int) {
 			rep.Execs++
+			sched.Progress(nil)
 			sched.Progress(c10case{Kind: "stream", Stream: stream, Cuts: cuts, Buf: bs, N: len(want)})
 			if s, d := c10decodeStream(stream, cuts, bs, want); s != "" {
 				fail(s+" / chunked stream", fmt.Sprintf("stream %q cuts %v buf %d: %s", abbreviate(stream), cuts, bs, d), c10case{Kind: "stream", Stream: stream, Cuts: cuts, Buf: bs, N: len(want)})
@@ -315,6 +318,7 @@ func c10run(env sched.Env) *sched.Report {
 			}
 			for c := range cand {
 				rep.Execs++
+				sched.Progress(nil)
 				sched.Progress(c10case{Kind: "stream", Stream: stream, Cuts: []int{c}, Buf: bs, N: 3})
 				if s, d := c10decodeStream(stream, []int{c}, bs, want); s != "" {
 					fail(s+" / long message", fmt.Sprintf("len %d cut %d buf %d: %s", len(enc), c, bs, d), c10case{Kind: "stream", Stream: stream, Cuts: []int{c}, Buf: bs, N: 3})
@@ -322,6 +326,7 @@ func c10run(env sched.Env) *sched.Report {
 				for c2 := range cand {
 					if c2 > c && (c2-c) < 9 {
 						rep.Execs++
+						sched.Progress(nil)
 						if s, d := c10decodeStream(stream, []int{c, c2}, bs, want); s != "" {
 							fail(s+" / long message", fmt.Sprintf("len %d cuts %d,%d buf %d: %s", len(enc), c, c2, bs, d), c10case{Kind: "stream", Stream: stream, Cuts: []int{c, c2}, Buf: bs, N: 3})
 						}
@@ -343,6 +348,7 @@ func c10run(env sched.Env) *sched.Report {
 					continue // would not be an inline command
 				}
 				rep.Execs++
+				sched.Progress(nil)
 				want := resp.Cmd(prefix...)
 				for _, bs := range []int{32, 4096} {
 					if s, d := c10decodeStream(append([]byte(variant), resp.Encode(sentinel)...), nil, bs, []resp.Value{want, sentinel}); s != "" {
@@ -371,6 +377,7 @@ func c10run(env sched.Env) *sched.Report {
 	var gen func(p []byte)
 	gen = func(p []byte) {
 		rep.Execs++
+		sched.Progress(nil)
 		got, gerr := btoi64(p)
 		want, werr := strconv.ParseInt(string(p), 10, 64)
 		if (gerr != nil) != (werr != nil) || (gerr == nil && got != want) {
@@ -389,6 +396,7 @@ func c10run(env sched.Env) *sched.Report {
 	for _, i := range c10ints {
 		for _, s := range []string{strconv.FormatInt(i, 10), "+" + strconv.FormatInt(i, 10), strconv.FormatInt(i, 10) + "0", "9" + strconv.FormatInt(i, 10)} {
 			rep.Execs++
+			sched.Progress(nil)
 			got, gerr := btoi64([]byte(s))
 			want, werr := strconv.ParseInt(s, 10, 64)
 			if (gerr != nil) != (werr != nil) || (gerr == nil && got != want) {
@@ -419,6 +427,7 @@ func c10run(env sched.Env) *sched.Report {
 			}
 			for _, buf := range []int{32, 4096} {
 				rep.Execs++
+				sched.Progress(nil)
 				if sig, detail := c10decodeStream(stream, nil, buf, want); sig != "" {
 					fail(sig+" / after 300 repetitions of one message", fmt.Sprintf("unit %s (#%d), buffer %d: %s", u, ui, buf, detail), c10case{Kind: "repeat", Int: int64(ui)})
 				}
@@ -428,12 +437,14 @@ func c10run(env sched.Env) *sched.Report {
 	// (e) itoa
 	for i := int64(-70000); i <= 70000 && env.Shard == 0; i++ {
 		rep.Execs++
+		sched.Progress(nil)
 		if itoa(i) != strconv.FormatInt(i, 10) {
 			fail("itoa-differs-from-strconv", fmt.Sprintf("itoa(%d)=%q", i, itoa(i)), c10case{Kind: "itoa", Int: i})
 		}
 	}
 	for _, i := range c10ints {
 		rep.Execs++
+		sched.Progress(nil)
 		if itoa(i) != strconv.FormatInt(i, 10) {
 			fail("itoa-differs-from-strconv", fmt.Sprintf("itoa(%d)=%q", i, itoa(i)), c10case{Kind: "itoa", Int: i})
 		}
